@@ -119,6 +119,11 @@ func (reg RegionAxisCoordinates) evaluate(coord Coord) float32 {
 		return 1.
 	}
 
+	// invalid regions are ignored (see the 'Algorithm for Interpolation of Instance Values' of the spec)
+	if start > peak || peak > end || (start < 0 && end > 0) {
+		return 1.
+	}
+
 	if coord <= start || end <= coord {
 		return 0.
 	}
